@@ -14,11 +14,11 @@ TEXT = {
     "C13": dict(
         technique="deterministic simulation: virtual monotonic clock, deadline injected at every clock read (fault enumeration), work counted between checks",
         text="Every expiry point (deadline strictly between two consecutive reads of the virtual perf_counter) of each input is executed when the run has few reads; for long runs all reads before the production loop plus a seeded sample. Each run is judged for: no exception, prefix of the no-deadline stream, nothing executed after the check that saw the deadline, at most one candidate sequence analysed / one partial parse expanded between two checks, ctparse() == best of the prefix. The stop point is computed from the reference run alone (first deadline check whose reading exceeds start + timeout), so a deadline measured from the wrong origin or not honoured at all is caught however the library measures elapsed time; ctparse(timeout=0) must equal the best of the unlimited stream. Stalls (one read jumps far past the deadline), slow-consumer stalls (the caller sits on the k-th candidate) and clocks with jittered, nanosecond- and mega-scale readings are injected too. Fault enumeration is the right level because the fault space (where the deadline falls) is finite per input and enumerable only with a virtual clock.",
-        note="Trusted: discrete-event time (time passes only at clock reads); perf_counter monotonic; the counting wrappers installed on PartialParse.from_regex_matches/apply_rule/_filter_rules and the counting Scorer observe all work. Inputs are sampled (ambiguity family n=2..6 repeated tokens, fixed texts, grammar texts).",
+        note="Trusted: discrete-event time (time passes only at clock reads); perf_counter monotonic; the counting wrappers installed on PartialParse.from_regex_matches/apply_rule/_filter_rules and the counting Scorer (for the library's own scorer object: a per-row counter on CTParsePipeline.predict_log_proba) observe all work. Inputs are sampled (ambiguity family n=2..6 repeated tokens, fixed texts, grammar texts).",
         ref="4.1"),
     "C14": dict(
         technique="deterministic simulation: the Scorer is the seeded scheduler of the search; emission history checked after each step",
-        text="The search is driven by a simulated scorer (constant, shipped, negated, FIFO/LIFO counters, seeded uniform) that decides the order of every rule application; the single-result call is compared with the recorded stream under an identical score script; finiteness and the strictly-better re-emission rule are checked over the emission history. Seeded exploration over texts x schedulers x depth limits x reference times.",
+        text="The search is driven by a simulated scorer (constant, shipped, negated, FIFO/LIFO counters, seeded uniform / coarse / tiny-scale / last-bit / huge-scale) that decides the order of every rule application; the single-result call is compared with the recorded stream under an identical score script; finiteness and the strictly-better re-emission rule are checked over the emission history. Seeded exploration over texts x schedulers x depth limits x reference times.",
         note="Trusted: oracle-side value keys (all fields, both ends, amount+unit); the score script replays exactly. Sampling, not proof.",
         ref="4.3"),
     "C15": dict(
@@ -33,7 +33,7 @@ TEXT = {
         ref="4.2"),
     "C03": dict(
         technique="deterministic simulation: virtual wall clock (ticks, boundary jumps, back-steps, client skew) driving omitted-ts and explicit-ts requests; calendar reference model",
-        text="Relative-day surface forms are requested while a simulated wall clock is moved over boundaries (midnight, month/year ends, leap days) with jumps, back-steps and client skew; results must equal an independent calendar model at the instant read by the call. Thorough walks every day of the 28-year cycle 2016-2043.",
+        text="Relative-day surface forms are requested while a simulated wall clock is moved over boundaries (midnight, month/year ends, leap days) with jumps, back-steps and client skew, on a simulated machine whose process time zone is not UTC; explicit reference times are naive, aware with a fixed offset, aware in a zone with DST rules (around the switch days), or the same instant handed over in two zones; results must equal an independent calendar model at the instant read by the call. Thorough walks every day of the 28-year cycle 2016-2043.",
         note="Trusted: calendar model built on datetime.date/timedelta only; surface-form table expanded by hand from the rule patterns; best-ranked reading is judged.",
         ref="4.4"),
     "C04": dict(
@@ -43,12 +43,12 @@ TEXT = {
         ref="4.4"),
     "C05": dict(
         technique="deterministic simulation: clock jumps/skew as the fault; metamorphic invariance of absolute dates over all instants of a run",
-        text="Absolute dates in every notation are requested at many simulated instants (jumps of years, back-steps, skewed clients, omitted ts); the result must equal the written fields at every instant and all notations must agree.",
+        text="Absolute dates in every notation are requested at many simulated instants (jumps of years, back-steps, skewed clients, omitted ts); clocks include dotted notations and ones that repeat digits of the date; the result must equal the written fields at every instant and all notations must agree.",
         note="Exclusions from the property's own quantifier (military-time years) are applied and printed.",
         ref="4.4"),
     "C06": dict(
         technique="deterministic simulation: virtual wall clock placed on both sides of the requested minute; calendar reference model for latent anchoring",
-        text="Every clock notation of (h, m) with anchoring off must give (h, m); with anchoring on, the first such instant strictly after the reference minute, with the clock placed before / at / after the requested minute and at day/month/year roll-overs, ts omitted (simulated now()) or explicit.",
+        text="Every clock notation of (h, m) with anchoring off must give (h, m); with anchoring on, the first such instant strictly after the reference minute, with the clock placed before / at / after the requested minute and at day/month/year roll-overs and on the eve of DST switches for aware reference times, ts omitted (simulated now()) or explicit.",
         note="Same trusted base as C03.",
         ref="4.4"),
     "C01": dict(
